@@ -34,9 +34,9 @@ def sample_hdi(sample: ndarray, fraction: float) -> ndarray:
         )
 
     if isinstance(sample, ndarray):
-        s = sample.copy()
+        s = sample.astype(float)
     elif isinstance(sample, Sequence):
-        s = array(sample)
+        s = array(sample, dtype=float)
     else:
         raise ValueError(
             f"""\n
